@@ -12,6 +12,9 @@
 //	    split function up to the last token is listed
 //	dec   <doc> <sizes> <dataEOF> <lim>  -> <len:style:quote:info,…>;<end>
 //	    styling.NewDecoder read to the end with Next/Token/Style/Quote
+//	longdec <prefix> <n> <suffix> <sizes> <dataEOF> <lim>  -> as dec
+//	    the document is prefix + n x "a" + suffix (long-line probes; the document itself is
+//	    not written out)
 //
 // <end> is eof | toolong | badsplit | PANIC | err.
 package c17
@@ -22,9 +25,14 @@ import (
 	"errors"
 	"fmt"
 	"go/ast"
+	"go/constant"
+	"go/importer"
 	"go/parser"
 	"go/token"
+	"go/types"
 	"io"
+	"math"
+	"os"
 	"path/filepath"
 	"strconv"
 	"strings"
@@ -657,6 +665,57 @@ func (c *ctx) longDocs() {
 	_ = r
 }
 
+// longProbe decodes prefix + n*"a" + suffix (one very long line) under the single-read
+// delivery and one with EOF on the last read; the model line is emitted only when withModel.
+func (c *ctx) longProbe(prefix string, n int, suffix string, withModel bool) {
+	r := c.r
+	if c.hung {
+		return
+	}
+	doc := make([]byte, 0, len(prefix)+n+len(suffix))
+	doc = append(doc, prefix...)
+	for i := 0; i < n; i++ {
+		doc = append(doc, 'a')
+	}
+	doc = append(doc, suffix...)
+	mk := func(res decRes, s sched) string {
+		return fmt.Sprintf("longdec %s %d %s %s %s -", common.HexS(prefix), n, common.HexS(suffix), ints(res.got), common.B(s.dataEOF))
+	}
+	refS := sched{}
+	ref := decode(doc, refS)
+	refLine := mk(ref, refS)
+	if withModel {
+		r.Line(refLine, ref.obs())
+	}
+	c.clauses(doc, refS, ref, refLine)
+	r.Case(fmt.Sprintf("longdec %q %d %q", prefix, n, suffix), true, "long-probe")
+	s2 := sched{sizes: []int{1 << 20}, dataEOF: true}
+	res := decode(doc, s2)
+	line := mk(res, s2)
+	c.clauses(doc, s2, res, line)
+	if res.panic == "" && !res.hung && ref.panic == "" && res.obs() != ref.obs() {
+		r.Fail("chunk-independent", divergenceKey(ref.evs, res.evs), []string{r.Prop + " " + refLine, r.Prop + " " + line},
+			fmt.Sprintf("long line probe %q+%d*a+%q: one read gives %.200s, reads of 1 MiB give %.200s", prefix, n, suffix, ref.obs(), res.obs()))
+	}
+}
+
+// longProbes: lines far beyond bufio's default token limit, so that any cap NewDecoder puts
+// on its scanner below the largest probe shows as a concrete failing input; when the source
+// shows a finite cap (DecoderLimit) a line just above that cap is probed as well.
+func (c *ctx) longProbes() {
+	c.longProbe("", 70<<10, "", true)
+	c.longProbe("> *", 200<<10, "*\nnext", true)
+	c.longProbe("", 3<<20, "\n", true)
+	c.longProbe("```\n", 3<<20, "", false)
+	c.longProbe("", 40<<20, "", false)
+	if known, unb, n := DecoderLimit(repoDir()); known && !unb {
+		c.r.Notes = append(c.r.Notes, fmt.Sprintf("NewDecoder limits tokens to %d bytes", n))
+		if n <= 256<<20 {
+			c.longProbe("", int(n)+1, "", false)
+		}
+	}
+}
+
 // Run is the C17 runner.
 func Run(r *common.Run) error {
 	c := &ctx{r: r}
@@ -672,6 +731,13 @@ func Run(r *common.Run) error {
 			}
 			doc, _ := common.UnHex(f[2])
 			switch f[1] {
+			case "longdec":
+				if len(f) < 8 {
+					continue
+				}
+				n, _ := strconv.Atoi(f[3])
+				suf, _ := common.UnHex(f[4])
+				c.longProbe(string(doc), n, string(suf), n <= 4<<20)
 			case "dec", "split":
 				if len(f) < 6 {
 					continue
@@ -728,6 +794,7 @@ func Run(r *common.Run) error {
 		}
 	}
 	c.longDocs()
+	c.longProbes()
 
 	// 2. small scope, exhaustive: every document up to length L over the directive alphabet
 	// under every way of cutting it into reads, with and without EOF on the last read
@@ -797,6 +864,105 @@ func Run(r *common.Run) error {
 		r.Notes = append(r.Notes, "a decode hung; the run was cut short")
 	}
 	return nil
+}
+
+// DecoderLimit reads the token size limit NewDecoder gives its bufio.Scanner from the
+// source: the call `<scanner>.Buffer(buf, max)` inside func NewDecoder, with `max` (and the
+// capacity of a `make([]byte, n, c)` first argument) evaluated as typed constants.
+// known=false: the shape was not recognised; unbounded=true: the limit is math.MaxInt or
+// more; otherwise n is the limit (bufio.MaxScanTokenSize when Buffer is never called).
+func DecoderLimit(repo string) (known, unbounded bool, n uint64) {
+	fset := token.NewFileSet()
+	f, err := parser.ParseFile(fset, filepath.Join(repo, "styling", "styling.go"), nil, 0)
+	if err != nil {
+		return false, false, 0
+	}
+	info := &types.Info{Types: map[ast.Expr]types.TypeAndValue{}}
+	conf := types.Config{Importer: importer.ForCompiler(fset, "source", nil), Error: func(error) {}}
+	_, _ = conf.Check("styling", fset, []*ast.File{f}, info)
+	constOf := func(e ast.Expr) (uint64, bool, bool) { // value, isConst, atLeastMaxInt
+		tv, ok := info.Types[e]
+		if !ok || tv.Value == nil || tv.Value.Kind() != constant.Int {
+			return 0, false, false
+		}
+		if constant.Compare(tv.Value, token.GEQ, constant.MakeInt64(math.MaxInt64)) {
+			return 0, true, true
+		}
+		v, exact := constant.Uint64Val(tv.Value)
+		if !exact {
+			return 0, false, false
+		}
+		return v, true, false
+	}
+	var fn *ast.FuncDecl
+	for _, d := range f.Decls {
+		if fd, ok := d.(*ast.FuncDecl); ok && fd.Name.Name == "NewDecoder" && fd.Recv == nil {
+			fn = fd
+		}
+	}
+	if fn == nil || fn.Body == nil {
+		return false, false, 0
+	}
+	var calls []*ast.CallExpr
+	ast.Inspect(fn.Body, func(nd ast.Node) bool {
+		if c, ok := nd.(*ast.CallExpr); ok {
+			if sel, ok := c.Fun.(*ast.SelectorExpr); ok && sel.Sel.Name == "Buffer" {
+				calls = append(calls, c)
+			}
+		}
+		return true
+	})
+	switch len(calls) {
+	case 0:
+		// bufio.NewScanner's default
+		return true, false, bufio.MaxScanTokenSize
+	case 1:
+	default:
+		return false, false, 0
+	}
+	c := calls[0]
+	if len(c.Args) != 2 {
+		return false, false, 0
+	}
+	max, ok, big := constOf(c.Args[1])
+	if !ok {
+		return false, false, 0
+	}
+	if big {
+		return true, true, 0
+	}
+	// "the maximum token size is the larger of max and cap(buf)"
+	switch a := c.Args[0].(type) {
+	case *ast.Ident:
+		if a.Name != "nil" {
+			return false, false, 0
+		}
+	case *ast.CallExpr:
+		id, isMake := a.Fun.(*ast.Ident)
+		if !isMake || id.Name != "make" || len(a.Args) < 2 {
+			return false, false, 0
+		}
+		cp, ok, big := constOf(a.Args[len(a.Args)-1])
+		if !ok {
+			return false, false, 0
+		}
+		if big {
+			return true, true, 0
+		}
+		if cp > max {
+			max = cp
+		}
+	default:
+		return false, false, 0
+	}
+	return true, false, max
+}
+
+func repoDir() string {
+	if d := os.Getenv("VERIF_REPO"); d != "" {
+		return d
+	}
+	return "/repo"
 }
 
 // Facts regenerates lean/XmppModel/Generated/C17.lean: the UTF-8 encodings of all runes
@@ -884,6 +1050,15 @@ func Facts(repo string) (string, error) {
 		fmt.Fprintf(&sb, "/-- `var fence` of styling/styling.go -/\ndef fence : Option (List UInt8) := some [%s]\n", strings.Join(fence, ", "))
 	} else {
 		sb.WriteString("def fence : Option (List UInt8) := none\n")
+	}
+	sb.WriteString("\n/-- the token size limit `NewDecoder` gives its scanner (second argument of `Buffer`, or the\ncapacity of its first argument if larger; `some none` = math.MaxInt or more, i.e. unbounded;\n`none` = the call has a shape the extractor does not recognise) -/\n")
+	switch known, unb, n := DecoderLimit(repo); {
+	case !known:
+		sb.WriteString("def decoderLimit : Option (Option Nat) := none\n")
+	case unb:
+		sb.WriteString("def decoderLimit : Option (Option Nat) := some none\n")
+	default:
+		fmt.Fprintf(&sb, "def decoderLimit : Option (Option Nat) := some (some %d)\n", n)
 	}
 	sb.WriteString("\nend XmppModel.Generated.C17\n")
 	return sb.String(), nil
